@@ -17,7 +17,17 @@ RULE = ("families: bsi/argsort_k/find_pbest_id/minmax exhaustively over lattice 
 ASSUMPTIONS = ["primitives return values in their documented range", "weights/fitness finite (no NaN)",
                "rejection loops terminate (partial correctness)"]
 TRUSTED = ["models: coq/theories/RandomPrims.v; check functions coq/theories/C11Check.v"]
-THEORIES = ["Base", "RandomPrims", "RandomPrimsProofs", "RandomPrimsProofs2", "SattoloCycle", "C11Check"]
+THEORIES = ["Base", "RandomPrims", "RandomPrimsProofs", "RandomPrimsProofs2", "SattoloCycle", "C11Check",
+            "Py", "PyLemmas", "GenCode", "CodeEqC11"]
+TRUSTED += ["code translator harness/translate_code.py (function bodies -> gen/GenCode.v) and the semantics it targets, "
+            "coq/theories/Py.v: the models are PROVED equal to the generated definitions (theories/CodeEqC11.v)"]
+
+
+def gen(ctx):
+    """(T) regenerate gen/GenCode.v from the function bodies in the working tree; fail closed"""
+    import translate_code as TC
+    TC.ensure(TC.C11_FUNCS)
+
 
 IMPORTS = "From TF Require Import Base RandomPrims C11Check."
 EPS = 2.0 ** -53
